@@ -89,9 +89,34 @@ func c20memberDir(pid int, dir string) string {
 	return filepath.Join("/sys/fs/cgroup", f[0], m[f[0]])
 }
 
+// threads of the process that are not members of the group directory dir
+func c20threadsOutside(pid int, dir string) []int {
+	var out []int
+	ents, _ := os.ReadDir(fmt.Sprintf("/proc/%d/task", pid))
+	for _, e := range ents {
+		tid, _ := strconv.Atoi(e.Name())
+		m := c20membershipOf(fmt.Sprintf("/proc/%d/task/%d/cgroup", pid, tid))
+		got := ""
+		if c20v2 {
+			got = filepath.Join("/sys/fs/cgroup", m[""])
+		} else {
+			f := strings.SplitN(strings.TrimPrefix(dir, "/sys/fs/cgroup/"), "/", 2)
+			got = filepath.Join("/sys/fs/cgroup", f[0], m[f[0]])
+		}
+		if got != dir {
+			out = append(out, tid)
+		}
+	}
+	return out
+}
+
 func c20membership(pid int) map[string]string {
+	return c20membershipOf(fmt.Sprintf("/proc/%d/cgroup", pid))
+}
+
+func c20membershipOf(file string) map[string]string {
 	out := map[string]string{}
-	b, _ := os.ReadFile(fmt.Sprintf("/proc/%d/cgroup", pid))
+	b, _ := os.ReadFile(file)
 	for _, l := range strings.Split(string(b), "\n") {
 		f := strings.SplitN(l, ":", 3)
 		if len(f) == 3 {
@@ -201,12 +226,15 @@ func c20sequence(x *mc.X, maxOps int) {
 	c20cleanup()
 	defer c20cleanup()
 	prefix := c20prefix() + "/g"
-	helper := exec.Command("/bin/sleep", "1000")
+	// the process that is moved around has several threads: "adding a pid really moves that process" means all of it
+	helper := exec.Command(probe("threads"), "3")
 	helper.SysProcAttr = &syscall.SysProcAttr{Setsid: true}
+	hout, _ := helper.StdoutPipe()
 	if err := helper.Start(); err != nil {
 		x.Failf("C20/harness", "%v", err)
 		return
 	}
+	hout.Read(make([]byte, 8)) // "ready": the threads exist
 	defer func() { helper.Process.Kill(); helper.Wait() }()
 	var handles []*c20handle
 	ctx := func(i int) string { return fmt.Sprintf("sequence %v, step %d", desc, i) }
@@ -403,6 +431,8 @@ func c20sequence(x *mc.X, maxOps int) {
 				for _, hp := range cgroup.VerifPaths(h.cg) {
 					if got := c20memberDir(helper.Process.Pid, hp); got != hp {
 						x.Failf("C20/seq/addproc-not-moved", "%s: AddProc succeeded but the process is in %s, not in %s", ctx(i), got, hp)
+					} else if out := c20threadsOutside(helper.Process.Pid, hp); len(out) > 0 {
+						x.Failf("C20/seq/addproc-moved-one-thread-only", "%s: AddProc succeeded, the thread-group leader is in %s but threads %v of the process are not", ctx(i), hp, out)
 					}
 				}
 				if fmt.Sprint(c20membership(other.Process.Pid)) != fmt.Sprint(beforeOther) {
